@@ -805,6 +805,8 @@ def menus() -> dict:
         ('choices_empty', False, key2(type='CHOICES', default='', lst=[])),
         ('choices_long', False, key2(type='CHOICES', default='0', lst=[['0', 'n' * 1001, []]])),
         ('choices_quote', False, key2(type='CHOICES', default='0', lst=[['0', 'say "hi"', []], ['1', 'On', []]])),
+        # rows repeating a value: with the same tags (untagged / tagged) and a different caption, and with different tags
+        ('choices_repeat', False, key2(type='CHOICES', default='0', lst=[['0', 'Off', []], ['0', 'Also off', []], ['1', 'On', ['A']], ['1', 'On too', ['A']], ['1', 'Else', ['!A']]])),
         ('choices_bslash', False, key2(type='CHOICES', default='0', lst=[['0', 'a\\nb', []], ['1', 'dir\\', ['A']]])),
         ('choices_val_quote', False, key2(type='CHOICES', default='a"b', lst=[['a"b', 'Quoted', []], ['c d', 'Spaced', []]])),
     ]
@@ -817,6 +819,7 @@ def menus() -> dict:
         ('plain', True, flags([[1, 'First', True, []], [2, 'Second', False, []]])),
         ('tagged', False, flags([[1, 'First', True, ['A']], [4, 'Third', False, ['!A', 'B']]])),
         ('big', False, flags([[1 << 23, 'High', False, []], [1 << 31, 'Top', True, []]])),
+        ('repeat', False, flags([[1, 'First', True, []], [1, 'First again', False, []], [2, 'Second', False, ['A']], [2, 'Second', True, ['A']]])),
         ('empty', False, flags([])),
         ('longname', False, flags([[1, 'n' * 1001, False, []]])),
         ('quote', False, flags([[1, 'say "hi"', False, []]])),
@@ -1065,6 +1068,17 @@ def bin_menus() -> dict:
         ('every_type', True, setter(bin_ent, 'res', [[f'file{i}', ft.name, []] for i, ft in enumerate(FileType)])),
         ('fn_odd', False, setter(bin_ent, 'res', [['', 'MODEL', []], ['a"b\\c d', 'GENERIC', ['A']]])),
     ]
+    # the same input / output / key name in two entities of one database, spelled in different letter cases (the shipped database
+    # has prop_button.UnLock next to func_door.Unlock): each entity gets its own spelling back
+    def case_twin_io(spelling_a, spelling_b):
+        def f(spec):
+            bin_ent(spec)['ins'][0]['name'] = spelling_a
+            ent_by_id(spec, 'ent_b')['ins'][0]['name'] = spelling_b
+            ent_by_id(spec, 'ent_b')['outs'] = [ios(spelling_b.swapcase(), 'VOID')]
+            bin_ent(spec)['outs'][0]['name'] = spelling_a
+        return f
+    m['io.case_twins'] = [('UnLock_Unlock', True, case_twin_io('UnLock', 'Unlock')), ('lower_UPPER', False, case_twin_io('in1', 'IN1')),
+                          ('Strasse', False, case_twin_io('Stra\u00dfe', 'STRASSE'))]
     m['ent.type'] = [(t.name, t.name in ('BRUSH', 'EXTEND'), setter(bin_ent, 'type', t.name))
                      for t in EntityTypes if t.name != 'POINT']
 
